@@ -1,6 +1,8 @@
 package main
 
 import (
+	"go/token"
+	"go/types"
 	"strings"
 
 	"golang.org/x/tools/go/ssa"
@@ -79,5 +81,226 @@ func c11RealPathProvenance(p *Prog) *RuleResult {
 		}
 	}
 	r.Anchor("a symlink value returned by realFS.kind", n >= 1)
+	return r
+}
+
+// C11/R5 wildcard matches at least one character.
+//
+// Node's PACKAGE_IMPORTS_EXPORTS_RESOLVE matches a pattern key "./base*trailer" only if matchKey
+// "starts with but is not equal to" the pattern base and, when there is a trailer, is at least as
+// long as the whole key: the `*` always stands for one or more characters. "./foo*" therefore does
+// not match the subpath "./foo"; Node reports ERR_PACKAGE_PATH_NOT_EXPORTED for it.
+// Rule: in esmPackageImportsExportsResolve every path from the entry to the pattern call of
+// esmPackageTargetResolve (pattern = true) crosses an edge that establishes matchKey != patternBase
+// (a string inequality on matchKey) or len(matchKey) >= len(key) (a length comparison on matchKey).
+func c11WildcardNonEmpty(p *Prog) *RuleResult {
+	r := NewRule("C11/R5 wildcard-nonempty", "a `*` pattern of an exports/imports map matches only subpaths in which the `*` stands for at least one character (Node: matchKey starts with but is not equal to the pattern base)")
+	fn := p.FindFunc("resolver.(resolverQuery).esmPackageImportsExportsResolve")
+	if !r.Anchor("resolver.(resolverQuery).esmPackageImportsExportsResolve", fn != nil) {
+		return r
+	}
+	var matchKey *ssa.Parameter
+	for _, prm := range fn.Params {
+		if prm.Name() == "matchKey" {
+			matchKey = prm
+		}
+	}
+	if !r.Anchor("parameter matchKey", matchKey != nil) {
+		return r
+	}
+	isMatchKey := func(v ssa.Value) bool { return v == ssa.Value(matchKey) }
+	isLenOfMatchKey := func(v ssa.Value) bool {
+		c, ok := v.(*ssa.Call)
+		if !ok {
+			return false
+		}
+		bi, ok := c.Call.Value.(*ssa.Builtin)
+		return ok && bi.Name() == "len" && len(c.Call.Args) == 1 && isMatchKey(c.Call.Args[0])
+	}
+	safeEdge := func(b *ssa.BasicBlock, si int) bool {
+		if len(b.Instrs) == 0 {
+			return false
+		}
+		ifi, ok := b.Instrs[len(b.Instrs)-1].(*ssa.If)
+		if !ok {
+			return false
+		}
+		cond, pol := ifi.Cond, si == 0
+		for {
+			if u, ok := cond.(*ssa.UnOp); ok && u.Op == token.NOT {
+				cond, pol = u.X, !pol
+				continue
+			}
+			break
+		}
+		bo, ok := cond.(*ssa.BinOp)
+		if !ok {
+			return false
+		}
+		switch bo.Op {
+		case token.NEQ, token.EQL:
+			// matchKey != <some string>
+			if bt, ok := bo.X.Type().Underlying().(*types.Basic); ok && bt.Kind() == types.String && (isMatchKey(bo.X) || isMatchKey(bo.Y)) {
+				if _, isConst := bo.Y.(*ssa.Const); isConst {
+					return false
+				}
+				return pol == (bo.Op == token.NEQ)
+			}
+		case token.GEQ, token.GTR:
+			if isLenOfMatchKey(bo.X) {
+				return pol
+			}
+		case token.LSS, token.LEQ:
+			if isLenOfMatchKey(bo.X) {
+				return !pol
+			}
+			if isLenOfMatchKey(bo.Y) {
+				return pol
+			}
+		}
+		return false
+	}
+	n := 0
+	eachInstr(fn, func(b *ssa.BasicBlock, in ssa.Instruction) {
+		c, ok := in.(*ssa.Call)
+		if !ok || !strings.HasSuffix(FuncNameOf(c), "resolverQuery).esmPackageTargetResolve") || len(c.Call.Args) < 5 {
+			return
+		}
+		if !isConstBool(c.Call.Args[4], true) {
+			return // not a pattern match
+		}
+		n++
+		r.Instances++
+		key := "pattern match in esmPackageImportsExportsResolve"
+		target := b
+		if path, reach := reachesExitAvoidingEdges(fn.Blocks[0], func(x *ssa.BasicBlock) bool { return x == target }, func(x *ssa.BasicBlock) bool { return false }, safeEdge); reach {
+			r.Fail(key, p.Pos(c.Pos()), "a pattern key is matched on a path ("+blockPath(path)+") that never established that matchKey differs from the pattern base (or is at least as long as the key): `\"./foo*\"` then matches the subpath `./foo` with an empty `*`, which Node rejects as not exported")
+		} else {
+			r.OK(key, true, "every path to the pattern match establishes matchKey != patternBase or len(matchKey) >= len(key)")
+		}
+	})
+	r.Anchor("a pattern call of esmPackageTargetResolve", n >= 1)
+	return r
+}
+
+// C11/R6 every segment of the matched subpath is validated.
+//
+// Node's PACKAGE_TARGET_RESOLVE rejects a target if any segment *after the first* is ".", ".." or
+// "node_modules" (a target starts with "./"), and rejects the part of the specifier matched by `*`
+// (the subpath) if *any* segment is one of those — otherwise `pkg/lib/../secret.js` walks out of
+// an exported directory `"./lib/*"`. The validator applied to the subpath therefore must not skip
+// the first segment.
+// Rule: the function that validates the `subpath` parameter of esmPackageTargetResolve compares
+// with ".." a segment that can start at offset 0 of its argument (dataflow over the string slices:
+// the parameter and its prefixes x[:n] start at 0, x[n:] does not).
+func c11SubpathSegments(p *Prog) *RuleResult {
+	r := NewRule("C11/R6 subpath-all-segments", "the validation of the subpath matched by a `*` pattern examines every segment, including the first (a leading `..` or `node_modules` segment is rejected as Node does)")
+	fn := p.FindFunc("resolver.(resolverQuery).esmPackageTargetResolve")
+	if !r.Anchor("resolver.(resolverQuery).esmPackageTargetResolve", fn != nil) {
+		return r
+	}
+	var subpath *ssa.Parameter
+	for _, prm := range fn.Params {
+		if prm.Name() == "subpath" {
+			subpath = prm
+		}
+	}
+	if !r.Anchor("parameter subpath", subpath != nil) {
+		return r
+	}
+	// startsAtZero: can the string value v begin at offset 0 of the function's parameter prm?
+	var coversFirst func(callee *ssa.Function, pi int, depth int) (bool, bool)
+	coversFirst = func(callee *ssa.Function, pi int, depth int) (found bool, covers bool) {
+		if callee == nil || callee.Blocks == nil || depth > 3 || pi >= len(callee.Params) {
+			return false, false
+		}
+		prm := callee.Params[pi]
+		atZero := map[ssa.Value]bool{prm: true}
+		for changed := true; changed; {
+			changed = false
+			eachInstr(callee, func(_ *ssa.BasicBlock, in ssa.Instruction) {
+				v, ok := in.(ssa.Value)
+				if !ok || atZero[v] {
+					return
+				}
+				switch x := in.(type) {
+				case *ssa.Slice:
+					if atZero[x.X] && x.Low == nil {
+						atZero[v] = true
+						changed = true
+					}
+				case *ssa.Phi:
+					for _, e := range x.Edges {
+						if atZero[e] {
+							atZero[v] = true
+							changed = true
+						}
+					}
+				}
+			})
+		}
+		eachInstr(callee, func(_ *ssa.BasicBlock, in ssa.Instruction) {
+			switch x := in.(type) {
+			case *ssa.BinOp:
+				if x.Op != token.EQL && x.Op != token.NEQ {
+					return
+				}
+				for _, pair := range [][2]ssa.Value{{x.X, x.Y}, {x.Y, x.X}} {
+					if s, ok := constString(pair[1]); ok && s == ".." {
+						found = true
+						if atZero[pair[0]] {
+							covers = true
+						}
+					}
+				}
+			case *ssa.Call:
+				// forwarded to another validator
+				if sub := x.Call.StaticCallee(); sub != nil && sub != callee {
+					for ai, a := range x.Call.Args {
+						if bt, ok := a.Type().Underlying().(*types.Basic); !ok || bt.Kind() != types.String {
+							continue
+						}
+						f2, c2 := coversFirst(sub, ai, depth+1)
+						if f2 {
+							found = true
+							if c2 && atZero[a] {
+								covers = true
+							}
+						}
+					}
+				}
+			}
+		})
+		return
+	}
+	n := 0
+	eachInstr(fn, func(b *ssa.BasicBlock, in ssa.Instruction) {
+		c, ok := in.(*ssa.Call)
+		if !ok {
+			return
+		}
+		callee := c.Call.StaticCallee()
+		if callee == nil || pkgPathOf(callee) != pkgPathOf(fn) {
+			return
+		}
+		for ai, a := range c.Call.Args {
+			if a != ssa.Value(subpath) {
+				continue
+			}
+			found, covers := coversFirst(callee, ai, 0)
+			if !found {
+				continue // not a segment validator
+			}
+			n++
+			r.Instances++
+			key := "validation of subpath in esmPackageTargetResolve"
+			if covers {
+				r.OK(key, true, FuncName(callee)+" compares a segment that starts at offset 0 of the subpath with \"..\"")
+			} else {
+				r.Fail(key, p.Pos(c.Pos()), "the subpath is validated by "+FuncName(callee)+", which discards everything up to the first separator before it looks at segments: a subpath that begins with `..` or `node_modules` (`pkg/lib/../secret.js` with \"./lib/*\") is accepted and resolves outside the exported directory; Node throws ERR_INVALID_MODULE_SPECIFIER")
+			}
+		}
+	})
+	r.Anchor("a segment validation of subpath", n >= 1)
 	return r
 }
